@@ -50,6 +50,9 @@ structure Facts where
   getHandlerShape : List String      -- shared accesses of `TargetRegistry.get_handler`
   sharedWrites : List (String × String)   -- (function, write) for every write to module/class state in a function
   mutableDefaults : List (String × String) -- (function, parameter=default) for every mutable default argument
+  sharedObjectWrites : List (String × String) -- (Class.method, attributes of self written) for singletons and spec classes
+  argValFresh : Bool                      -- `arg_val`: `scope[MIN_MODE] = _ArgValuator().mode`
+  bbreprDef : String                      -- right-hand side of `bbrepr = …`
   glomScope : List (String × String)      -- the dict literal of `glom()`'s `new_child`: key → how its value is built
   glomScopeRoot : String                  -- what `glom()` derives the scope from
   childScope : List (String × String)     -- the dict literal of `_glom`'s `new_child`
@@ -69,6 +72,11 @@ def Facts.WF (f : Facts) : Bool :=
   f.getHandlerShape == expectedGetHandler &&
   f.sharedWrites == [("Path.from_text", "cls._CACHE[PATH_STAR][text]"), ("Path.from_text.create", "cls._STAR_WARNED")] &&
   f.mutableDefaults.isEmpty &&
+  f.sharedObjectWrites == [("TargetRegistry.get_handler", "_type_cache"),
+    ("TargetRegistry._register_fuzzy_type", "_op_type_tree"),
+    ("TargetRegistry.register", "_type_cache,_op_type_map"),
+    ("TargetRegistry.register_op", "_op_type_map,_op_type_tree,_op_auto_map,_type_cache")] &&
+  f.argValFresh && f.bbreprDef == "recursive_repr()(_BBRepr().repr)" &&
   f.glomScope == [("Path", "kwargs.pop:[]"), ("Inspect", "kwargs.pop:None"), ("MODE", "name:AUTO"),
     ("MIN_MODE", "const:None"), ("CHILD_ERRORS", "[]"), ("'globals'", "call:ScopeVars({}, {})")] &&
   f.glomScopeRoot == "_DEFAULT_SCOPE.new_child" &&
